@@ -110,7 +110,9 @@ class Stack(AbstractBijection):
         shapes = [b.shape for b in bijections]
         check_shapes_match(shapes)
 
-        self.shape = shapes[0][:axis] + (len(bijections),) + shapes[0][axis:]
+        # Negative axes are relative to the stacked (rank + 1) shape, as in jnp.stack
+        pos_axis = range(len(shapes[0]) + 1)[axis]
+        self.shape = shapes[0][:pos_axis] + (len(bijections),) + shapes[0][pos_axis:]
         self.cond_shape = merge_cond_shapes([b.cond_shape for b in bijections])
 
     def transform(self, x, condition=None):
